@@ -66,6 +66,96 @@ def is_len_of(f, op, fields):
     return False
 
 
+def limit_dom_helper(res, L, field, lhs_check, ops, err_variant, key):
+    """the same obligation when the limit tests live in a helper called once per iteration: the call dominates the step,
+    its `stop` result never reaches the step, and inside the helper the true edge of the comparison can only produce the
+    stop result carrying the limit error. Returns ('helper', call bb) on success, None when no such helper exists."""
+    f = L.f
+    P = L.P if hasattr(L, "P") else None
+    for bi in sorted(L.pre_region):
+        t = f.blocks[bi]["term"]
+        if t["t"] != "call" or t.get("target") is None:
+            continue
+        gname = M.callee_name(t) or ""
+        g = P.funcs.get(gname) if P is not None else None
+        if g is None or not any("env::Env" in str(a) for a in (t.get("argtys") or [])):
+            continue
+        s1 = None
+        for gb in g.reachable_blocks():
+            gt = g.blocks[gb]["term"]
+            if gt["t"] != "switch":
+                continue
+            r = g.root_of(gt["discr"])
+            if r[0] == "rv" and r[3]["rv"]["k"] == "discr":
+                names = [e.get("name") for e in r[3]["rv"]["place"]["p"] if isinstance(e, dict) and "name" in e]
+                if names and names[-1] == field:
+                    s1 = (gb, gt)
+        if s1 is None:
+            continue
+        if not f.dominates(bi, L.step_bb):
+            res.bad("LIMIT-DOM", key + " # helper-not-dominating", "the call of %s (which tests Env.%s) does not dominate the call of eval_expr" % (gname, field), f.loc(t["span"]))
+            return ("helper", bi)
+        # caller side: which result continues to the step?
+        dest = t["dest"]["l"]
+        cont_names = None
+        stop_tgts = []
+        tb = D.try_continue_block(f, bi)
+        if tb is not None:
+            cont_names = {"Ok", "None"}     # `?` continues on Ok (Result) -- Option<Err> helpers are not used with `?`
+            swt = f.blocks[tb[0]]["term"]
+            stop_tgts = [b2 for v, b2 in swt["targets"] if v != 0] + ([swt["otherwise"]] if swt.get("otherwise") is not None else [])
+            stop_tgts = [b for b in stop_tgts if b != tb[1]]
+        else:
+            for sw in D.enum_switches(f):
+                if sw["place"]["l"] == dest and not sw["place"]["p"] and sw["bb"] in L.pre_region | {t["target"]}:
+                    allt = dict(sw["by_target"])
+                    if sw["otherwise_variants"]:
+                        allt[sw["otherwise"]] = sw["otherwise_variants"]
+                    for tgt, names in allt.items():
+                        r_ = D.reach_from(f, [tgt], avoid_blocks=[L.pop_bb])
+                        if L.step_bb in r_:
+                            cont_names = set(names) if cont_names is None else cont_names | set(names)
+                        else:
+                            stop_tgts.append(tgt)
+        if cont_names is None or not stop_tgts:
+            res.bad("LIMIT-DOM", key + " # helper-result-unused", "the result of %s does not decide whether eval_expr is called" % gname, f.loc(t["span"]))
+            return ("helper", bi)
+        # helper side
+        sb, st = s1
+        some = EL.variant_edge(g, st, "Some")
+        inside = D.edge_dominated(g, sb, some) if some is not None else set()
+        s2 = None
+        for gb in sorted(inside):
+            gt = g.blocks[gb]["term"]
+            if gt["t"] != "switch" or gt["dty"] != "bool":
+                continue
+            r = g.root_of(gt["discr"])
+            if r[0] == "rv" and r[3]["rv"]["k"] == "binop" and r[3]["rv"]["op"] in ops:
+                rv = r[3]["rv"]
+                if lhs_check(g, rv["a"]) and payload_local(g, rv["b"], field):
+                    s2 = (gb, gt, rv["op"])
+                    break
+        if s2 is None:
+            res.bad("LIMIT-DOM", key + " # no-comparison", "%s: on the Some edge of Env.%s there is no comparison `<counter> %s <limit>`" % (gname, field, "/".join(ops)), g.loc(st["span"]))
+            return ("helper", bi)
+        cb, ct, op = s2
+        ft, tt = EL.bool_edges(ct)
+        tre = D.reach_from(g, [tt])
+        makes_cont = [b for b in tre for s_ in g.blocks[b]["stmts"] if s_["s"] == "assign" and s_["rv"]["k"] == "agg"
+                      and s_["rv"].get("variant") in cont_names and not s_["place"]["p"] and s_["place"]["l"] == 0]
+        if makes_cont or EL.builds_variant(g, tre, err_variant) is None:
+            res.bad("LIMIT-DOM", key + " # no-stop", "%s: the true edge of the limit comparison can return the `continue` result or does not build EvalError::%s" % (gname, err_variant), g.loc(ct["span"]))
+            return ("helper", bi)
+        # the helper is reached with the same Env on every iteration and the comparison is not skipped when the limit is Some
+        r_some = D.reach_from(g, [some], avoid_edges=[(cb, ft), (cb, tt)])
+        if any(g.blocks[b]["term"]["t"] == "return" for b in r_some):
+            res.bad("LIMIT-DOM", key + " # bypass", "%s can return from the Some edge of Env.%s without making the comparison" % (gname, field), g.loc(ct["span"]))
+            return ("helper", bi)
+        res.ok("LIMIT-DOM", "%s: tested in %s, called before every step; %s(counter, limit) true edge returns %s and never the continue result" % (key, gname, op, err_variant))
+        return ("helper", bi)
+    return None
+
+
 def limit_dom(res, L, field, lhs_check, ops, err_variant):
     f = L.f
     s1 = None
@@ -81,6 +171,9 @@ def limit_dom(res, L, field, lhs_check, ops, err_variant):
                 s1 = (bi, t)
     key = "eval::eval # %s" % field
     if s1 is None:
+        hv = limit_dom_helper(res, L, field, lhs_check, ops, err_variant, key)
+        if hv is not None:
+            return hv
         res.bad("LIMIT-DOM", key + " # no-test", "eval::eval never tests Env.%s between the loop head and the step" % field, f.loc())
         return
     sb, st = s1
@@ -131,6 +224,7 @@ def limit_dom(res, L, field, lhs_check, ops, err_variant):
 def run(ctx, res):
     P = ctx.P
     L = EL.locate(P)
+    L.P = P
     f = L.f
     reach = P.reachable(["eval::eval"], rta=False)
     E = P.edges()
@@ -163,6 +257,8 @@ def run(ctx, res):
                     okv = place_ends(f, s["rv"]["a"], ["ticks"]) and k is not None and k >= 1
                 incr.append((bi, okv, s["span"]))
     good = [bi for bi, okv, _ in incr if okv and f.dominates(bi, L.step_bb) and f.dominates(L.some_bb, bi)]
+    if isinstance(tick_cmp, tuple):
+        tick_cmp = tick_cmp[1]      # the limit is compared inside a helper: the increment must dominate its call
     if tick_cmp is not None:
         good = [bi for bi in good if f.dominates(bi, tick_cmp)]
     if good:
